@@ -614,8 +614,148 @@ fn run_free_once(case: &FreeCase) -> CaseOutcome {
     (info, viol)
 }
 
+// ------------------------------------------------------------------------------------------------
+// second loop: a ping source that outlives its loop (registered through a Dispatcher the application keeps, the loop
+// dropped without removing it) is inserted into a fresh loop and must work there like anywhere else: pings - from
+// this or another thread - are followed by one callback, the last handle going removes the source.
+
+#[derive(Serialize, Deserialize, Debug, Clone, Hash, PartialEq, Eq)]
+pub struct SlCase {
+    /// sources inserted before the ping source in the first / the second loop (equal: same slot, same token)
+    pub pre1: u8,
+    pub pre2: u8,
+    /// one ping delivered in the first loop
+    pub used_in_first: bool,
+    /// the source is removed from the first loop before that loop is dropped
+    pub removed_first: bool,
+    /// pings sent in the second loop (0..=3), from another thread or from this one
+    pub pings: u8,
+    pub from_thread: bool,
+    /// then the last handle is dropped: the source has to leave the second loop
+    pub drop_last: bool,
+}
+
+fn sl_strategy() -> impl Strategy<Value = SlCase> {
+    (0u8..3, 0u8..3, any::<bool>(), any::<bool>(), prop::bool::weighted(0.25), 0u8..=3, any::<bool>(), any::<bool>()).prop_map(|(pre1, d, same, used_in_first, removed_first, pings, from_thread, drop_last)| SlCase {
+        pre1,
+        pre2: if same { pre1 } else { d },
+        used_in_first,
+        removed_first,
+        pings,
+        from_thread,
+        drop_last,
+    })
+}
+
+pub fn run_second_loop(c: &SlCase) -> CaseOutcome {
+    use std::cell::Cell;
+    use std::rc::Rc;
+    let mut info = CaseInfo { fingerprint: fingerprint(c), ..CaseInfo::default() };
+    info.nontrivial = c.pre1 == c.pre2 && !c.removed_first && (c.pings > 0 || c.drop_last);
+    info.classes.push(if c.pre1 == c.pre2 { "second_loop_same_slot" } else { "second_loop_other_slot" });
+    if !c.removed_first {
+        info.classes.push("first_loop_dropped_with_the_source_registered");
+    }
+    let v = |sig: &str, d: String| Some(Violation::new("C03.served", d).with_sig(format!("C03.served/second-loop-{sig}")));
+    let (ping, source) = make_ping().expect("make_ping");
+    let calls = Rc::new(Cell::new(0u32));
+    let c2 = calls.clone();
+    let disp = calloop::Dispatcher::new(source, move |_, _, _: &mut ()| c2.set(c2.get() + 1));
+    let mut keep = Vec::new();
+    {
+        let mut el: EventLoop<()> = EventLoop::try_new().expect("loop 1");
+        let h = el.handle();
+        for _ in 0..c.pre1.min(3) {
+            let (p, s) = make_ping().unwrap();
+            h.insert_source(s, |_, _, _| {}).unwrap();
+            keep.push(p);
+        }
+        let tok = h.register_dispatcher(disp.clone()).expect("register in loop 1");
+        if c.used_in_first {
+            ping.ping();
+            el.dispatch(Some(Duration::ZERO), &mut ()).expect("dispatch 1");
+            if calls.get() != 1 {
+                return (info, v("first-loop", format!("first loop: one ping, {} callbacks", calls.get())));
+            }
+        }
+        if c.removed_first {
+            h.remove(tok);
+        }
+    }
+    calls.set(0);
+    let mut el: EventLoop<()> = EventLoop::try_new().expect("loop 2");
+    let h = el.handle();
+    for _ in 0..c.pre2.min(3) {
+        let (p, s) = make_ping().unwrap();
+        h.insert_source(s, |_, _, _| {}).unwrap();
+        keep.push(p);
+    }
+    let tok = match h.register_dispatcher(disp.clone()) {
+        Ok(t) => t,
+        Err(e) => return (info, v("insert", format!("inserting a ping source that outlived its first loop into a fresh loop failed: {e}"))),
+    };
+    let n = c.pings.min(3);
+    if n > 0 {
+        if c.from_thread {
+            let p = ping.clone();
+            std::thread::spawn(move || {
+                for _ in 0..n {
+                    p.ping();
+                }
+            })
+            .join()
+            .unwrap();
+        } else {
+            for _ in 0..n {
+                ping.ping();
+            }
+        }
+    }
+    for _ in 0..2 {
+        el.dispatch(Some(Duration::ZERO), &mut ()).expect("dispatch 2");
+    }
+    let want = (n > 0) as u32;
+    if calls.get() != want {
+        return (
+            info,
+            v(
+                "ping",
+                format!(
+                    "second loop ({} sources before it, first loop had {}; first loop {}): {n} ping(s) returned, 2 dispatches, {} callback(s), expected {want}",
+                    c.pre2,
+                    c.pre1,
+                    if c.removed_first { "removed the source before it went" } else { "was dropped with the source still registered" },
+                    calls.get()
+                ),
+            ),
+        );
+    }
+    if c.drop_last {
+        drop(ping);
+        for _ in 0..2 {
+            el.dispatch(Some(Duration::ZERO), &mut ()).expect("dispatch 3");
+        }
+        if h.disable(&tok).is_ok() {
+            let mut viol = v("close", "second loop: the last Ping handle was dropped, 2 dispatches later the source is still inserted (its token is alive)".to_string());
+            if let Some(x) = viol.as_mut() {
+                x.rule = "C03.close".to_string();
+                x.sig = "C03.close/second-loop".to_string();
+            }
+            return (info, viol);
+        }
+    }
+    drop(keep);
+    (info, None)
+}
+
 pub fn check(ctx: &CheckCtx) -> Option<Found> {
     if let Some(f) = ctx.run_replays::<Case, _>("sched", run_case) {
+        return Some(f);
+    }
+    if let Some(f) = ctx.run_replays::<SlCase, _>("second_loop", run_second_loop) {
+        return Some(f);
+    }
+    if let Some(f) = ctx.search("second_loop", sl_strategy(), ctx.tier.pick(2_000, 40_000), 4, None, run_second_loop) {
         return Some(f);
     }
     if let Some(f) = ctx.run_replays::<crate::hist::ops::HistCase, _>("hist", |c| run_case_for(&HIST, c)) {
@@ -665,6 +805,10 @@ pub fn replay(_ctx: &CheckCtx, sub: &str, case: serde_json::Value) -> Result<Opt
     if sub == "free" {
         let c: FreeCase = serde_json::from_value(case).map_err(|e| e.to_string())?;
         return Ok(run_free(&c).1);
+    }
+    if sub == "second_loop" {
+        let c: SlCase = serde_json::from_value(case).map_err(|e| e.to_string())?;
+        return Ok(run_second_loop(&c).1);
     }
     let c: Case = serde_json::from_value(case).map_err(|e| e.to_string())?;
     Ok(run_case(&c).1)
